@@ -707,50 +707,32 @@ theorem parseAny_strong {W : World} {rec : P} {mC : Mode} (h : Good rec mC) (ts 
 /-! ### `^` -/
 
 /-- the `^` loop as a function of the isolated verdicts: none = a second argument accepted (violation);
-some (value, `xor is not None`, number of failed arguments) otherwise -/
-def onePure (rec : P) (m : Mode) (o : Opts) : Val → Bool → List Ty → Option (Val × Bool × Nat)
-  | v, x, [] => some (v, x, 0)
-  | v, x, t :: ts =>
+some (value of the accepting argument if any, number of failed arguments) otherwise -/
+def onePure (rec : P) (m : Mode) (o : Opts) (v : Val) : Option Val → List Ty → Option (Option Val × Nat)
+  | r, [] => some (r, 0)
+  | r, t :: ts =>
     match verdict rec t m o v with
-    | none => (onePure rec m o v x ts).map fun r => (r.1, r.2.1, r.2.2 + 1)
-    | some v1 => if !x then onePure rec m o v1 true ts else none
+    | none => (onePure rec m o v r ts).map fun p => (p.1, p.2 + 1)
+    | some v1 =>
+      match r with
+      | none => onePure rec m o v (some v1) ts
+      | some _ => none
 
-theorem onePure_eq {rec : P} {mC : Mode} (h : Good rec mC) (o : Opts) (v : Val) (x : Bool) (ts : List Ty) :
-    onePure rec .ff o v x ts = onePure rec mC o v x ts := by
-  induction ts generalizing v x with
+theorem onePure_eq {rec : P} {mC : Mode} (h : Good rec mC) (o : Opts) (v : Val) (r : Option Val) (ts : List Ty) :
+    onePure rec .ff o v r ts = onePure rec mC o v r ts := by
+  induction ts generalizing r with
   | nil => rfl
   | cons t ts ih =>
     simp only [onePure, h.verdict_eq]
     cases verdict rec t mC o v with
     | none => simp only [ih]
-    | some v1 => simp only [ih]
-
-theorem oneLoop_dirty (rec : P) (c : Ctx) (v : Val) (x : Bool) (ts : List Ty) (hd : c.errors ≠ []) :
-    (oneLoop rec c v x ts).1.errors ≠ [] := by
-  induction ts generalizing c v x with
-  | nil => exact hd
-  | cons t ts ih =>
-    simp only [oneLoop]
-    split
-    · exact ih _ _ _ hd
-    · split
-      · exact ih _ _ _ hd
-      · split
-        · rename_i c2 ex hh
-          have hc2 : c2 = (c.handleError { kind := .oneOf }).1 := by rw [hh]
-          apply ih
-          show c2.errors ≠ []
-          rw [hc2]; exact handleError_ne_nil _ _ _
-        · rename_i c2 hh
-          have hc2 : c2 = (c.handleError { kind := .oneOf }).1 := by rw [hh]
-          show c2.errors ≠ []
-          rw [hc2]; exact handleError_ne_nil _ _ _
+    | some v1 => cases r <;> simp only [ih]
 
 theorem enter_none (c : Ctx) : c.enter = clean0 c.mode c.o := rfl
 
-theorem oneLoop_none (rec : P) (c : Ctx) (v : Val) (x : Bool) (ts : List Ty)
-    (h : onePure rec c.mode c.o v x ts = none) : (oneLoop rec c v x ts).1.errors ≠ [] := by
-  induction ts generalizing c v x with
+theorem oneLoop_none (rec : P) (v : Val) (c : Ctx) (r : Option Val) (ts : List Ty)
+    (h : onePure rec c.mode c.o v r ts = none) : Bad (oneLoop rec v c r ts) := by
+  induction ts generalizing c r with
   | nil => simp [onePure] at h
   | cons t ts ih =>
     simp only [onePure, verdict] at h
@@ -758,35 +740,29 @@ theorem oneLoop_none (rec : P) (c : Ctx) (v : Val) (x : Bool) (ts : List Ty)
     cases hr : (rec t (clean0 c.mode c.o) v).2 with
     | error e =>
       simp only [hr, Option.map_eq_none_iff] at h
-      exact ih (c.collectTmp e.toErr) v x h
+      exact ih (c.collectTmp e.toErr) r h
     | ok v1 =>
       simp only [hr] at h
-      cases x with
-      | false =>
-        simp only [Bool.not_false, if_true] at h
-        simp only [Bool.not_false, if_true]
-        exact ih c v1 true h
-      | true =>
-        simp only [Bool.not_true, Bool.false_eq_true, if_false]
+      cases r with
+      | none => exact ih c (some v1) h
+      | some r0 =>
+        simp only
         split
-        · rename_i c2 ex hh
-          have hc2 : c2 = (c.handleError { kind := .oneOf }).1 := by rw [hh]
-          apply oneLoop_dirty
-          show c2.errors ≠ []
-          rw [hc2]; exact handleError_ne_nil _ _ _
+        · left; exact ⟨_, rfl⟩
         · rename_i c2 hh
           have hc2 : c2 = (c.handleError { kind := .oneOf }).1 := by rw [hh]
+          right
           show c2.errors ≠ []
           rw [hc2]; exact handleError_ne_nil _ _ _
 
-theorem oneLoop_some (rec : P) (c : Ctx) (v : Val) (x : Bool) (ts : List Ty) (v' : Val) (x' : Bool) (k : Nat)
-    (h : onePure rec c.mode c.o v x ts = some (v', x', k)) :
-    ∃ es, es.length = k ∧ oneLoop rec c v x ts = ({ c with tmp := c.tmp ++ es }, v', x') := by
-  induction ts generalizing c v x k with
+theorem oneLoop_some (rec : P) (v : Val) (c : Ctx) (r : Option Val) (ts : List Ty) (r' : Option Val) (k : Nat)
+    (h : onePure rec c.mode c.o v r ts = some (r', k)) :
+    ∃ es, es.length = k ∧ oneLoop rec v c r ts = ({ c with tmp := c.tmp ++ es }, .ok r') := by
+  induction ts generalizing c r k with
   | nil =>
     simp only [onePure, Option.some.injEq, Prod.mk.injEq] at h
-    obtain ⟨h1, h2, h3⟩ := h
-    subst h1 h2 h3
+    obtain ⟨h1, h2⟩ := h
+    subst h1 h2
     exact ⟨[], rfl, by simp [oneLoop]⟩
   | cons t ts ih =>
     simp only [onePure, verdict] at h
@@ -794,87 +770,84 @@ theorem oneLoop_some (rec : P) (c : Ctx) (v : Val) (x : Bool) (ts : List Ty) (v'
     cases hr : (rec t (clean0 c.mode c.o) v).2 with
     | error e =>
       simp only [hr, Option.map_eq_some_iff] at h
-      obtain ⟨⟨v2, x2, k2⟩, h1, h2⟩ := h
+      obtain ⟨⟨r2, k2⟩, h1, h2⟩ := h
       simp only [Prod.mk.injEq] at h2
-      obtain ⟨h2a, h2b, h2c⟩ := h2
-      subst h2a h2b h2c
-      obtain ⟨es, hes, hl⟩ := ih (c.collectTmp e.toErr) v x k2 h1
+      obtain ⟨h2a, h2b⟩ := h2
+      subst h2a h2b
+      obtain ⟨es, hes, hl⟩ := ih (c.collectTmp e.toErr) r k2 h1
       refine ⟨e.toErr :: es, by simp [hes], ?_⟩
       simp only
       rw [hl]
       simp [Ctx.collectTmp]
     | ok v1 =>
       simp only [hr] at h
-      cases x with
-      | false =>
-        simp only [Bool.not_false, if_true] at h
-        simp only [Bool.not_false, if_true]
-        exact ih c v1 true k h
-      | true => simp at h
+      cases r with
+      | none => exact ih c (some v1) k h
+      | some r0 => simp at h
 
 /-- what `^` returns on a clean context -/
-def oneRes (W : World) (rec : P) (m : Mode) (o : Opts) (ts : List Ty) (v : Val) : Option Val :=
-  if ts.any (exactTy W v) then some v
-  else
-    match onePure rec m o v false ts with
-    | none => none
-    | some (v', x, k) => if x || k == 0 then some v' else none
+def oneRes (rec : P) (m : Mode) (o : Opts) (ts : List Ty) (v : Val) : Option Val :=
+  match onePure rec m o v none ts with
+  | none => none
+  | some (some res, _) => some res
+  | some (none, k) => if k == 0 then some v else none
 
-theorem parseOne_spec (W : World) (rec : P) (ts : List Ty) (m : Mode) (o : Opts) (v : Val) :
-    Spec m o (oneRes W rec m o ts v) (parseOne W rec ts (clean0 m o) v) := by
+theorem parseOne_spec (rec : P) (ts : List Ty) (m : Mode) (o : Opts) (v : Val) :
+    Spec m o (oneRes rec m o ts v) (parseOne rec ts (clean0 m o) v) := by
   unfold oneRes parseOne
-  by_cases hex : ts.any (exactTy W v) = true
-  · simp only [hex, if_true, Spec]
-  · simp only [hex, Bool.false_eq_true, if_false]
-    cases hp : onePure rec m o v false ts with
-    | none =>
-      have := oneLoop_none rec (clean0 m o) v false ts hp
+  cases hp : onePure rec m o v none ts with
+  | none =>
+    have hb := oneLoop_none rec v (clean0 m o) none ts hp
+    simp only [Spec]
+    cases hl : oneLoop rec v (clean0 m o) none ts with
+    | mk c1 r =>
+      rw [hl] at hb
+      cases r with
+      | error x => exact ⟨c1, x, rfl⟩
+      | ok r =>
+        rcases hb with ⟨y, hy⟩ | hb
+        · simp at hy
+        · simp only [andThen]
+          cases r with
+          | none =>
+            obtain ⟨y, hy⟩ := finish_dirty c1 hb v
+            exact ⟨_, y, hy⟩
+          | some res =>
+            obtain ⟨y, hy⟩ := finish_dirty c1.clearTmp hb res
+            exact ⟨_, y, hy⟩
+  | some p =>
+    obtain ⟨r', k⟩ := p
+    obtain ⟨es, hes, hl⟩ := oneLoop_some rec v (clean0 m o) none ts r' k hp
+    rw [hl]
+    simp only [andThen, clean0_tmp, List.nil_append]
+    cases r' with
+    | some res =>
       simp only [Spec]
-      cases hl : oneLoop rec (clean0 m o) v false ts with
-      | mk c1 r =>
-        obtain ⟨v1, x⟩ := r
-        rw [hl] at this
-        simp only
-        have hd : (if x = true then c1.clearTmp else c1).errors ≠ [] := by
-          split
-          · exact this
-          · exact this
-        obtain ⟨y, hy⟩ := finish_dirty _ hd v1
-        exact ⟨_, y, hy⟩
-    | some r =>
-      obtain ⟨v', x, k⟩ := r
-      obtain ⟨es, hes, hl⟩ := oneLoop_some rec (clean0 m o) v false ts v' x k hp
-      rw [hl]
-      simp only [clean0_tmp, List.nil_append]
-      cases x with
-      | true =>
-        simp only [Bool.true_or, if_true, Spec]
-        have : ({ clean0 m o with tmp := es } : Ctx).clearTmp = clean0 m o := rfl
-        rw [this, finish_clean]
-      | false =>
-        simp only [Bool.false_or, Bool.false_eq_true, if_false]
-        cases k with
-        | zero =>
-          have : es = [] := List.eq_nil_of_length_eq_zero hes
-          subst this
-          simp only [BEq.rfl, if_true, Spec]
-          exact finish_clean m o v'
-        | succ k =>
-          have : (Nat.succ k == 0) = false := by simp
-          simp only [this, Bool.false_eq_true, if_false, Spec]
-          cases es with
-          | nil => simp at hes
-          | cons e es =>
-            simp [finish, Ctx.raiseError, clean0]
+      have : ({ clean0 m o with tmp := es } : Ctx).clearTmp = clean0 m o := rfl
+      rw [this, finish_clean]
+    | none =>
+      simp only
+      cases k with
+      | zero =>
+        have : es = [] := List.eq_nil_of_length_eq_zero hes
+        subst this
+        simp only [BEq.rfl, if_true, Spec]
+        exact finish_clean m o v
+      | succ k =>
+        have : (Nat.succ k == 0) = false := by simp
+        simp only [this, Bool.false_eq_true, if_false, Spec]
+        cases es with
+        | nil => simp at hes
+        | cons e es => simp [finish, Ctx.raiseError, clean0]
 
-theorem parseOne_strong {W : World} {rec : P} {mC : Mode} (h : Good rec mC) (ts : List Ty) (o : Opts) (v : Val) :
-    StrongSim o mC (parseOne W rec ts (clean0 .ff o) v) (parseOne W rec ts (clean0 mC o) v) := by
-  have hF := parseOne_spec W rec ts .ff o v
-  have hC := parseOne_spec W rec ts mC o v
-  have he : oneRes W rec .ff o ts v = oneRes W rec mC o ts v := by simp only [oneRes, onePure_eq h]
+theorem parseOne_strong {rec : P} {mC : Mode} (h : Good rec mC) (ts : List Ty) (o : Opts) (v : Val) :
+    StrongSim o mC (parseOne rec ts (clean0 .ff o) v) (parseOne rec ts (clean0 mC o) v) := by
+  have hF := parseOne_spec rec ts .ff o v
+  have hC := parseOne_spec rec ts mC o v
+  have he : oneRes rec .ff o ts v = oneRes rec mC o ts v := by simp only [oneRes, onePure_eq h]
   rw [he] at hF
   revert hF hC
-  cases oneRes W rec mC o ts v with
+  cases oneRes rec mC o ts v with
   | some r => intro hF hC; left; exact ⟨r, hF, hC⟩
   | none =>
     intro hF hC
@@ -978,23 +951,23 @@ theorem orElse_pres {s : Ctx × Option Val} {k : Ctx → Ctx × Res Val} {m : Mo
   | some r => exact hs
   | none => exact hk c hs
 
-theorem oneLoop_pres (rec : P) (c : Ctx) (v : Val) (x : Bool) (ts : List Ty) :
-    (oneLoop rec c v x ts).1.mode = c.mode ∧ (oneLoop rec c v x ts).1.o = c.o := by
-  induction ts generalizing c v x with
+theorem oneLoop_pres (rec : P) (v : Val) (c : Ctx) (r : Option Val) (ts : List Ty) :
+    (oneLoop rec v c r ts).1.mode = c.mode ∧ (oneLoop rec v c r ts).1.o = c.o := by
+  induction ts generalizing c r with
   | nil => exact ⟨rfl, rfl⟩
   | cons t ts ih =>
     simp only [oneLoop]
     split
-    · exact ih _ _ _
-    · split
-      · exact ih _ _ _
-      · have hm := handleError_mode c { kind := .oneOf } false
+    · exact ih _ _
+    · cases r with
+      | none => exact ih _ _
+      | some r0 =>
+        simp only
+        have hm := handleError_mode c { kind := .oneOf } false
         have ho := handleError_o c { kind := .oneOf } false
         split
         · rename_i c2 ex hh
           rw [hh] at hm ho
-          have := ih (c2.collectTmp ex.toErr) ‹Val› true
-          rw [this.1, this.2]
           exact ⟨hm, ho⟩
         · rename_i c2 hh
           rw [hh] at hm ho
@@ -1039,16 +1012,10 @@ theorem parseComb_pres {W : World} {rec : P} (hp : Pres rec) (op : Comb) (ts : L
   | one =>
     simp only
     unfold parseOne
-    split
-    · exact ⟨rfl, rfl⟩
-    · have := oneLoop_pres rec c v false ts
-      revert this
-      cases oneLoop rec c v false ts with
-      | mk c1 r =>
-        obtain ⟨v1, x⟩ := r
-        intro this
-        simp only [finish_pres]
-        split <;> exact this
+    refine andThen_pres (oneLoop_pres rec v c none ts) (fun c1 r h1 => ?_)
+    cases r with
+    | none => rw [finish_pres]; exact h1
+    | some res => rw [finish_pres]; exact h1
   | neg =>
     simp only [finish_pres]
     exact negLoop_pres rec v c ts
